@@ -153,9 +153,11 @@ class Tokenizer:
                     self._with_macro = False
                     break
             elif tok.type == Token.NEWLINE:
+                if lines and tok.start[0] not in lines:
+                    # the last line of a string that began on an earlier line; the NEWLINE the tokenizer adds at the
+                    # end of an input without final newline carries no line text of its own
+                    lines[tok.start[0]] = tok.line or self.get_lines([tok.start[0]])[0]
                 if not is_indented:
-                    if lines and tok.start[0] not in lines:
-                        lines[tok.start[0]] = tok.line  # the last line of a string that began on an earlier line
                     break
                 elif not tok.string:
                     # empty new line added by the tokenizer
